@@ -12,7 +12,7 @@ from flosim.gen import cfg_with
 class C07(FloCheck):
     pid = "C07"
     design_ref = "§6 C07, appendix A"
-    cfg = cfg_with(naux=(0, 2), nslaves=(0, 1), p_marker=0.1, p_bid=0.15, p_fiat=0.3, p_status_need=0.1)
+    cfg = cfg_with(p_copyf=0.12, naux=(0, 2), nslaves=(0, 1), p_marker=0.1, p_bid=0.15, p_fiat=0.3, p_status_need=0.1)
     rule = ("generated well-formed programs: 1-3 scheduled framers (active / inactive, front / mid / back, own periods), 0-2 "
             "auxiliary and 0-1 slave framers, 1-6 frames each in forests of depth <= 3 with primary-child overrides, actions in "
             "every context (recorders, put, inc), go / timeout / repeat transitions with conditions on shares, elapsed, "
